@@ -180,6 +180,9 @@ func (s *Sess) extIntrinsic(in ssa.CallInstruction, name string, args []Val, st 
 			s.oblige(st, "ext", fmt.Sprintf("ext.target@%d", s.extOrd(in)), fmt.Sprintf("(= (i.tag %s) %d)", args[0].t, s.tc.tagOf(info.Extended)), in.Pos(),
 				fmt.Sprintf("proto.SetExtension(%s): message must be %s", shortName(info.Name), typeKey(info.Extended)))
 		}
+		// proto.SetExtension panics on a nil message (it cannot be mutated)
+		s.oblige(st, "ext", fmt.Sprintf("ext.msg@%d", s.extOrd(in)), fmt.Sprintf("(distinct %s 0)", m), in.Pos(),
+			fmt.Sprintf("proto.SetExtension(%s): the message must not be nil", shortName(info.Name)))
 		s.setRegion(st, key, srt, fmt.Sprintf("(store %s %s (i.val %s))", G, m, v.t))
 		return nil, true
 	case "ClearExtension":
